@@ -96,6 +96,14 @@ func norm(v any) any {
 	return v
 }
 
+// jsonRound passes a value through JSON (numbers become float64, as in decoded frames).
+func jsonRound(v any) any {
+	b, _ := json.Marshal(v)
+	var out any
+	_ = json.Unmarshal(b, &out)
+	return out
+}
+
 func sameJSON(a, b []byte) bool {
 	var x, y any
 	if json.Unmarshal(a, &x) != nil || json.Unmarshal(b, &y) != nil {
@@ -130,6 +138,9 @@ func genPayload(t *kernel.Tape) string {
 
 func genID(t *kernel.Tape, i int) jsonrpc2.ID {
 	if t.Bool("string-id") {
+		if t.Chance(1, 3, "numeric-looking-string-id") {
+			return jsonrpc2.NewStringID([]string{"7", "007", "-12", "0", "2147483648", "1e3", " 5"}[t.Choose(7, "which")])
+		}
 		return jsonrpc2.NewStringID(fmt.Sprintf("id-%d-ü", i))
 	}
 	return jsonrpc2.NewNumberID(int32(t.Choose(1<<20, "numid")))
@@ -452,6 +463,8 @@ type echo struct {
 	V string `json:"v"`
 	S string `json:"s,omitempty"`
 	Q int    `json:"q,omitempty"`
+	// Pad makes some frames far larger than any internal buffer or chunk size.
+	Pad string `json:"pad,omitempty"`
 }
 
 type callRec struct {
@@ -463,6 +476,7 @@ type callRec struct {
 	res       echo
 	cancelled bool
 	answered  bool
+	pad       int
 	wireID    any
 	seen      bool // decoded by the peer
 	started   bool // the caller has entered conn.Call
@@ -481,6 +495,7 @@ type cworld struct {
 	order   []string
 	notes   map[string][]int // notifier -> sequence numbers seen by the peer
 	peerReq map[string]bool  // requests the scripted peer sent to A, awaiting echo
+	peerIDs map[string]any   // the id each of them carried
 	frames  int
 }
 
@@ -522,6 +537,10 @@ func (w *cworld) decodeFromA() {
 				w.rc.Fail("C18/C/reply-to-peer-wrong", "conn replied %q to a peer request; outstanding peer requests: %v", kernel.Short(string(f.Body), 120), w.peerReq)
 				return
 			}
+			if want := w.peerIDs[v]; fmt.Sprintf("%T:%v", norm(jsonRound(want)), jsonRound(want)) != fmt.Sprintf("%T:%v", m["id"], m["id"]) {
+				w.rc.Fail("C18/C/reply-id-altered", "peer request %q carried id %#v, the reply carries %#v", v, want, m["id"])
+				return
+			}
 			delete(w.peerReq, v)
 		}
 	}
@@ -529,7 +548,7 @@ func (w *cworld) decodeFromA() {
 
 func subC(rc *kernel.RunCtx, k *kernel.Kernel) {
 	t := rc.T
-	w := &cworld{rc: rc, k: k, t: t, a2b: &queue{}, b2a: &queue{}, calls: map[string]*callRec{}, notes: map[string][]int{}, peerReq: map[string]bool{}}
+	w := &cworld{rc: rc, k: k, t: t, a2b: &queue{}, b2a: &queue{}, calls: map[string]*callRec{}, notes: map[string][]int{}, peerReq: map[string]bool{}, peerIDs: map[string]any{}}
 	var iomu sync.Mutex
 	ioA := &simIO{k: k, name: "A", in: w.b2a, out: w.a2b, mu: &iomu}
 	conn := jsonrpc2.NewConn(jsonrpc2.NewStream(ioA))
@@ -560,6 +579,9 @@ func subC(rc *kernel.RunCtx, k *kernel.Kernel) {
 		for j := 0; j < ncalls; j++ {
 			v := fmt.Sprintf("%s/%d/ü%d", name, j, rc.Run)
 			r := &callRec{task: name, value: v}
+			if t.Chance(1, 6, "large-frame") {
+				r.pad = []int{5000, 40000, 70000, 200000}[t.Choose(4, "padsize")]
+			}
 			w.calls[v] = r
 			w.order = append(w.order, v)
 			recs = append(recs, r)
@@ -573,7 +595,7 @@ func subC(rc *kernel.RunCtx, k *kernel.Kernel) {
 				r.started = true
 				w.mu.Unlock()
 				var res echo
-				_, err := conn.Call(ctx, "echo", echo{V: r.value}, &res)
+				_, err := conn.Call(ctx, "echo", echo{V: r.value, Pad: strings.Repeat("p", r.pad)}, &res)
 				w.mu.Lock()
 				r.done, r.err, r.res = true, err, res
 				w.mu.Unlock()
@@ -689,6 +711,26 @@ func subC(rc *kernel.RunCtx, k *kernel.Kernel) {
 					k.Quiesce()
 				}})
 			}
+			if !c.cancelled && !c.done && k.Find(c.task) == nil && k.Find("wr:A") == nil {
+				if rd := k.Find("rd:A"); rd != nil {
+					iomu.Lock()
+					empty := len(w.b2a.buf) == 0
+					iomu.Unlock()
+					if empty {
+						// the reply and the caller's cancellation arrive together: either outcome is the
+						// caller's own (its result or its cancellation); nothing about the outcome is logged
+						acts = append(acts, action{wCancel, func() {
+							k.Action("reply to " + c.value + " and cancel it at the same moment")
+							c.answered, c.cancelled = true, true
+							k.Count("fault_reply_races_cancellation", 1)
+							peerSend(map[string]any{"jsonrpc": "2.0", "id": c.wireID, "result": map[string]any{"v": c.value}})
+							k.Release(rd, kernel.Decision{})
+							c.cancel()
+							k.Quiesce()
+						}})
+					}
+				}
+			}
 			acts = append(acts, action{wNever, func() {
 				k.Action("peer will never answer " + c.value)
 				never[c.value] = true
@@ -726,7 +768,15 @@ func subC(rc *kernel.RunCtx, k *kernel.Kernel) {
 				v := fmt.Sprintf("peer/%d/%d", nPeerReq, rc.Run)
 				w.peerReq[v] = true
 				k.Action("peer calls " + v)
-				peerSend(map[string]any{"jsonrpc": "2.0", "id": "p" + fmt.Sprint(nPeerReq), "method": "reverse", "params": map[string]any{"v": v}})
+				var pid any = "p" + fmt.Sprint(nPeerReq)
+				switch t.Choose(3, "peer-id-shape") {
+				case 1:
+					pid = fmt.Sprint(100 + nPeerReq) // a string made of digits
+				case 2:
+					pid = 1000 + nPeerReq // a number
+				}
+				w.peerIDs[v] = pid
+				peerSend(map[string]any{"jsonrpc": "2.0", "id": pid, "method": "reverse", "params": map[string]any{"v": v}})
 			}})
 		}
 		ws := make([]int, len(acts))
